@@ -46,14 +46,15 @@ theorem strictMonoOn_glue {fneg fpos : ℝ → ℝ} (hn : StrictMonoOn fneg (Set
   unfold glue
   by_cases h1 : a < 0 <;> by_cases h2 : b < 0 <;> simp only [h1, h2, if_true, if_false]
   · exact hn ⟨ha.1, h1.le⟩ ⟨hb.1, h2.le⟩ hab
-  · push_neg at h2
+  · have h2 := not_lt.mp h2
     have e1 : fneg a < fneg 0 := hn ⟨ha.1, h1.le⟩ ⟨by norm_num, le_refl _⟩ h1
     rcases eq_or_lt_of_le h2 with h | h
     · rw [← h, ← h0]; exact e1
     · have e2 : fpos 0 < fpos b := hp ⟨le_refl _, by norm_num⟩ ⟨h2, hb.2⟩ h
       linarith
-  · push_neg at h1; linarith
-  · push_neg at h1 h2
+  · have h1 := not_lt.mp h1; linarith
+  · have h1 := not_lt.mp h1
+    have h2 := not_lt.mp h2
     exact hp ⟨h1, ha.2⟩ ⟨h2, hb.2⟩ hab
 
 /-- the function symbols of the traces interpreted over ℝ: only `tan` and `cos` occur in this property (the
